@@ -7,6 +7,7 @@ import (
 	"os"
 	"time"
 
+	"verifharness/model"
 	"verifharness/pqengine"
 )
 
@@ -171,7 +172,7 @@ func init() {
 	register("c05", func(args []string) int {
 		f := parseFlags("c05", args)
 		rep := newReport("C05", f)
-		rep.Rule = "random producer/consumer histories through the public Writer / Reader / ACK API on the simulated disk: events of 1 byte .. 6 pages with every size within +-4 of page / header boundaries, written in 1..40 chunks, explicit flushes (also in the middle of an event), implicit flushes by the write buffer (0 .. 16 pages), reader Begin / Next / partial Read / skip / Done, ACKs, reopen; oracle = slice of events (sizes, bytes, order, nothing delivered twice or skipped; final drain); page sizes 1 KiB / 4 KiB. Non-trivial: history with >= 1 event read back; distinct by op statistics."
+		rep.Rule = "random producer/consumer histories through the public Writer / Reader / ACK API on the simulated disk: events of 1 byte .. 6 pages with every size within +-4 of page / header boundaries, written in 1..40 chunks, explicit flushes (also in the middle of an event), implicit flushes by the write buffer (0 .. 16 pages), reader Begin / Next / partial Read / skip / Done, ACKs, reopen; oracle = slice of events (sizes, bytes, order, nothing delivered twice or skipped; final drain); K1: at the end of every history the extracted model reader (parse_from, and the reader state machine rd_run driven by a random sequence of Next / partial Read calls incl. reads stopping 1-5 bytes before a page end) on the real page chain vs. the real Reader on the same calls; page sizes 1 KiB / 4 KiB. Non-trivial: history with >= 1 event read back; distinct by op statistics."
 		if f.replay != "" {
 			rp, err := loadPQReplay(f.replay)
 			if err != nil {
@@ -181,6 +182,12 @@ func init() {
 			runPQHistory(rep, rp.Config, rp.Ops, rp.Seed, rp.Mode, nil, nil)
 			return rep.finish(f)
 		}
+		m, err := model.Start()
+		if err != nil {
+			fmt.Fprintln(os.Stderr, err)
+			return 2
+		}
+		defer m.Close()
 		r := rand.New(rand.NewSource(f.seed))
 		n := 250
 		if f.tier == "thorough" {
@@ -196,7 +203,15 @@ func init() {
 			cfg := cfgs[hr.Intn(len(cfgs))]
 			prof := pqengine.Profile{Steps: 20 + hr.Intn(120), MaxEvent: 6 * int(cfg.PageSize), Boundary: true, Reopen: true, PageSize: int(cfg.PageSize), AckPct: 6}
 			ops := pqengine.History(hr, prof)
-			e := runPQHistory(rep, cfg, ops, hseed, "", nil, nil)
+			k1 := rand.New(rand.NewSource(hseed + 1))
+			first := true
+			e := runPQHistory(rep, cfg, ops, hseed, "", nil, func(e *pqengine.Engine) {
+				if first { // not while shrinking
+					first = false
+					pqStreamK1(rep, m, e, "end of history")
+					pqReaderK1(rep, m, e, k1)
+				}
+			})
 			if e != nil && e.ReadPos > 0 {
 				rep.nontrivial(fmt.Sprintf("%s/%v", cfg, e.Stats))
 			}
@@ -204,6 +219,7 @@ func init() {
 				rep.sample(map[string]interface{}{"config": cfg.String(), "ops": trunc(pqOpKinds(ops), 500)})
 			}
 		}
+		rep.ModelCalls = m.N
 		return rep.finish(f)
 	})
 }
